@@ -1037,8 +1037,8 @@ MUTANTS = [
       "                                   dtype=np.int32), self.Nbfun)"),
      None),
     ("probes: columns not tiled over the components",
-     (_CB, "        cols = self.element_dofs[:, np.tile(cells, comp)]."
-      "flatten()", "        cols = self.element_dofs[:, np.tile(cells, "
+     (_CB, "        cols = self.dofs.element_dofs[:, np.tile(cells, comp)]."
+      "flatten()", "        cols = self.dofs.element_dofs[:, np.tile(cells, "
       "1)].flatten()"), "C14-R3"),
     ("interpolator reshapes as (points, components)",
      (_CB, "                out = out.reshape(self._base_tensor_order + "
